@@ -1359,7 +1359,7 @@ type vc03Alphabet struct {
 }
 
 func vc03NumVals(thorough bool) []vc03Val {
-	ints := []string{"0", "1", "5", "-5", "9223372036854775807", "-9223372036854775808"}
+	ints := []string{"0", "1", "5", "-5", "010", "9223372036854775807", "-9223372036854775808"}
 	decs := []string{"1.5", "-1.5", "2.25", "0.001", "0.002", "2.125", "100.5"}
 	if thorough {
 		ints = append(ints, "2", "10", "-1", "42", "9007199254740993", "-9223372036854775807", "1000000")
@@ -1392,6 +1392,7 @@ func vc03StrVals(thorough bool) []vc03Val {
 		vc03Str("AND", q),
 		vc03Str("%", q),
 		vc03Str("b_", b),
+		vc03Str("0x1F", b),
 		vc03Str("x'; DROP TABLE t;--", q),
 		vc03Str(" b", q),
 		vc03Str("", q),
